@@ -62,7 +62,7 @@ func textRuns(tw *trace.Writer, rng *rand.Rand, n int, exh bool, st map[string]i
 	strs, runs := 0, 0
 	distinct := map[string]bool{}
 	samples := []string{}
-	terms := []string{"xterm-256color", "vt100", "linux"}
+	terms := []string{"xterm-256color", "vt100", "linux", "rxvt-unicode"}
 	for _, cs := range statelessCharsets {
 		enc := tcell.GetEncoding(cs)
 		if enc == nil {
@@ -118,11 +118,16 @@ func textRuns(tw *trace.Writer, rng *rand.Rand, n int, exh bool, st map[string]i
 					full = append(append([]byte("\x1b[200~"), b...), []byte("\x1b[201~")...)
 				}
 				focus2 := focus && rng.Intn(2) == 0 // the terminal reports the same focus change twice in a row
+				fin := rng.Intn(2)                  // focus in (1) or out (0): the report ends the input
+				rep := []byte("\x1b[I")
+				if fin == 0 {
+					rep = []byte("\x1b[O")
+				}
 				if focus {
-					full = append(full, []byte("\x1b[I")...)
+					full = append(full, rep...)
 				}
 				if focus2 {
-					full = append(full, []byte("\x1b[I")...)
+					full = append(full, rep...)
 				}
 				strs++
 				if !distinct[string(full)+cs] {
@@ -152,7 +157,7 @@ func textRuns(tw *trace.Writer, rng *rand.Rand, n int, exh bool, st map[string]i
 				for _, cuts := range cutsets {
 					r := decode(ti, cs, 80, 24, split(full, cuts), nil)
 					e := runEvent("Text", strs, full, cuts, r)
-					e["src"], e["paste"], e["focus"], e["focus2"] = trace.Runes(src), paste, focus, focus2
+					e["src"], e["paste"], e["focus"], e["focus2"], e["fin"] = trace.Runes(src), paste, focus, focus2, fin
 					tw.Emit(e)
 					runs++
 				}
